@@ -109,7 +109,7 @@ Definition g_step (s : gshared) (l : glocal) : gshared * glocal :=
   | GDone => (s, l)
   end.
 
-(* one goroutine alone: the longest path has 10 actions *)
+(* one goroutine alone: the longest path has 11 actions *)
 Fixpoint solo (fuel : nat) (s : gshared) (l : glocal) : gshared * glocal :=
   match fuel with
   | O => (s, l)
@@ -118,7 +118,7 @@ Fixpoint solo (fuel : nat) (s : gshared) (l : glocal) : gshared * glocal :=
 
 (* the sequential Get; [None] would mean the fuel did not suffice (excluded by gc_get_total) *)
 Definition gc_get (s : gshared) (pat : str) (compiles : bool) : gshared * option (outcome str) :=
-  let '(s', l') := solo 10 s (g_init pat compiles) in (s', g_res l').
+  let '(s', l') := solo 11 s (g_init pat compiles) in (s', g_res l').
 
 (* a sequential history of calls; a panic kills only the calling goroutine, the cache lives on *)
 Fixpoint gc_history (s : gshared) (calls : list (str * bool)) : gshared * list (option (outcome str)) :=
